@@ -743,6 +743,11 @@ class Bond:
                 self.pcd = self.cpn_dts[i_flow - 1]
                 self.ncd = self.cpn_dts[i_flow]
                 break
+        else:
+            # no coupon date after the settlement date: do not keep the dates of a previous call
+            self.pcd = None
+            self.ncd = None
+            raise FinError("Settlement date is on or after the last coupon date.")
 
     ###########################################################################
 
